@@ -154,6 +154,10 @@ struct Waits<'a> {
     applied: Vec<u8>,
     hung_busy: bool,
     drop_spurious: bool,
+    /// an event applied at one of this call's waits ended the chip's operation (chip back in standby)
+    terminal_seen: bool,
+    /// ... and the call went on waiting for an interrupt until nothing was left that could raise one
+    ignored_terminal: bool,
 }
 
 impl Waits<'_> {
@@ -179,6 +183,9 @@ impl Waits<'_> {
                         return true;
                     }
                 }
+                if self.terminal_seen {
+                    self.ignored_terminal = true;
+                }
                 w.env.bump("probe.wait-starved-dropped");
                 w.env.tr(|| "harness: nothing left that could complete the wait -> future dropped".into());
                 return false;
@@ -190,6 +197,7 @@ impl Waits<'_> {
                 Irq::Timeout => Self::apply(w, ChipOutcome::Timeout, 0, false),
                 Irq::HeaderError => Self::apply(w, ChipOutcome::HeaderError, 0, false),
                 Irq::Preamble => Self::apply(w, ChipOutcome::Preamble, 0, false),
+                Irq::PreambleTimeout => Self::apply(w, ChipOutcome::PreambleTimeout, 0, false),
                 Irq::Spurious => {
                     if self.drop_spurious {
                         false
@@ -209,6 +217,15 @@ impl Waits<'_> {
             if applied {
                 self.applied.push(irq.kind());
                 w.env.tr(|| format!("chip: {irq:?}"));
+                let standby = match &w.chip {
+                    Chip::C126(c) => c.in_standby(),
+                    Chip::C127(c) => c.in_standby(),
+                };
+                // only the timeout interrupt is judged: the data sheets leave no doubt that it ends a single-shot
+                // operation with the chip in standby, and the statement names timed-out operations explicitly
+                if standby && matches!(irq, Irq::Timeout | Irq::PreambleTimeout) {
+                    self.terminal_seen = true;
+                }
                 return true;
             }
             // not applicable in the chip's present mode: try the next scripted event
@@ -532,7 +549,8 @@ impl<'a, RK: RadioKind> Exec<'a, RK> {
             let t = format!("step {idx}: {:?} gap={}us fault={:?} irqs={:?}  [driver mode {:?}, chip mode class {}]", step.op, step.gap_us, step.fault, step.irqs, hm0, chip_before);
             w.env.tr(|| t);
         }
-        let mut waits = Waits { irqs: &step.irqs, next: 0, implicit_done_used: false, cancelled: None, applied: vec![], hung_busy: false, drop_spurious };
+        let mut waits = Waits { irqs: &step.irqs, next: 0, implicit_done_used: false, cancelled: None, applied: vec![], hung_busy: false, drop_spurious, terminal_seen: false, ignored_terminal: false };
+        let clean_before = self.world.borrow().env.clean;
         let res = self.call(&step, &mut waits);
         let log = self.world.borrow().call;
         if let Some(chip_completes) = waits.cancelled {
@@ -564,6 +582,18 @@ impl<'a, RK: RadioKind> Exec<'a, RK> {
             let (inv, what) = if p.livelock { ("C14.livelock", "did not return within the bus-operation budget") } else { ("C14.panic", "panicked") };
             let loc = short_loc(&p.loc);
             self.violate(inv, format!("{fam}|{}|{loc}", step.op.name()), format!("{}() {what} at {} ({}); driver mode before the call {:?}, events at its waits {:?}", step.op.name(), p.loc, p.msg, hm0, step.irqs));
+            return false;
+        }
+
+        // ---- the chip reported the end of the operation and the call kept waiting for another interrupt ----
+        if waits.ignored_terminal && waits.cancelled.is_none() && !log.fault_fired && clean_before {
+            self.stats.bump("probe.ignored-terminal-irq");
+            let hm = self.hook_mode();
+            self.violate(
+                "C14.no-recovery",
+                format!("{fam}|{}|kept-waiting-after-chip-finished", step.op.name()),
+                format!("{}(): the chip reported the end of the operation at a wait of this call (events {:?}) and fell back to standby, but the call went on waiting for an interrupt the chip can no longer raise; driver mode {:?}", step.op.name(), step.irqs, hm),
+            );
             return false;
         }
 
@@ -746,7 +776,7 @@ impl<'a, RK: RadioKind> Exec<'a, RK> {
         for attempt in first..3 {
             if attempt == 2 {
                 self.world.borrow_mut().env.tr(|| "recovery: re-initialising".into());
-                let mut w0 = Waits { irqs: &[], next: 0, implicit_done_used: false, cancelled: None, applied: vec![], hung_busy: false, drop_spurious: false };
+                let mut w0 = Waits { irqs: &[], next: 0, implicit_done_used: false, cancelled: None, applied: vec![], hung_busy: false, drop_spurious: false, terminal_seen: false, ignored_terminal: false };
                 self.world.borrow_mut().begin_call("init", None);
                 let r = self.call(&Step::of(Op::Init), &mut w0);
                 if r != Res::Ok {
@@ -759,7 +789,7 @@ impl<'a, RK: RadioKind> Exec<'a, RK> {
             let n_before = self.tx_log_len();
             let mut ok = true;
             for s in &probe {
-                let mut w0 = Waits { irqs: &[], next: 0, implicit_done_used: false, cancelled: None, applied: vec![], hung_busy: false, drop_spurious: false };
+                let mut w0 = Waits { irqs: &[], next: 0, implicit_done_used: false, cancelled: None, applied: vec![], hung_busy: false, drop_spurious: false, terminal_seen: false, ignored_terminal: false };
                 {
                     let mut w = self.world.borrow_mut();
                     w.begin_call(s.op.name(), None);
